@@ -23,8 +23,23 @@
 (* Every other handler is a pass-through that is merely recorded in        *)
 (* `touched`, except the two that answer in this model: "cache" (when the  *)
 (* question is warm) and the tail (the resolver's stand-in).               *)
-(* Transports are not a variable: no transcribed step reads the protocol;  *)
-(* the replay runs every case on udp/tcp/doh/doq writers.                  *)
+(*   responseWriter.Reset  (gap C17-r3-2) the chain's base writer decides  *)
+(*                         Internal() for EVERY request: a *net.UDPAddr /  *)
+(*                         *net.TCPAddr peer that is 127.0.0.255 (either   *)
+(*                         byte form) with port 0 is the "sentinel" of a   *)
+(*                         synthesised internal query, otherwise what the  *)
+(*                         transport's own Internal() says (BufferWriter). *)
+(*                         So the address type of the transport (udp, doq: *)
+(*                         UDP; tcp, dot, doh: TCP), the source PORT and   *)
+(*                         the sentinel address are request dimensions:    *)
+(*                         `tr`, `port`, SentinelSrcs.  A network client   *)
+(*                         is a client whatever address and port it shows  *)
+(*                         (ClientNeverInternal).                          *)
+(* In the main family (Gate_quick/full) no source is the sentinel, so no   *)
+(* transcribed step reads the protocol there (Transports = {"any"}: the    *)
+(* replay runs every case on udp/tcp/doh/doq writers); the sentinel family *)
+(* (MC_Gate.tla SNets / SSrcs, GateSent_*.cfg) explores tr x port x the    *)
+(* sources at and around 127.0.0.255.                                      *)
 (***************************************************************************)
 EXTENDS Integers, Sequences, FiniteSets, TLC
 
@@ -37,7 +52,14 @@ CONSTANTS Chain,        \* sequence of handler names, the registered order
           MaxViews,
           Admit(_, _),  \* which (access list, views) configurations a run explores
           Borns,        \* {"wire","msg"}
-          Answers       \* {"cache","tail"}: who would answer the question downstream
+          Answers,      \* {"cache","tail"}: who would answer the question downstream
+          Transports,   \* SUBSET {"any","udp","tcp","doh","doq"}: the listener a client request came in on
+          Ports,        \* SUBSET {"zero","eph"}: source port 0 / an ordinary port
+          SentinelSrcs  \* SUBSET Srcs: source classes whose address is 127.0.0.255 (4-byte or v4-mapped form)
+
+(* switches (zero-arity definitions a cfg overrides with `<-`): both FALSE is the code as built *)
+StreamIgnoresPort    == FALSE   \* mutant (seeded C17-r3-2): the *net.TCPAddr branch of Reset lost `a.Port == 0 &&`
+IngressDropsPortZero == FALSE   \* candidate repair: a listener never hands a peer with source port 0 to the chain
 
 Idx(h) == CHOOSE i \in 1..Len(Chain) : Chain[i] = h
 Has(h) == \E i \in 1..Len(Chain) : Chain[i] = h
@@ -61,7 +83,7 @@ VARIABLES acl,       \* configured access list (set of net classes; may contain 
 
 vars == <<acl, views, req, pos, live, written, viewSel, touched>>
 
-NoReq == [kind |-> "none", src |-> "-", born |-> "-", ans |-> "-", pipe |-> "-"]
+NoReq == [kind |-> "none", src |-> "-", born |-> "-", ans |-> "-", pipe |-> "-", tr |-> "-", port |-> "-"]
 
 PipeOf(r) == IF r.pipe = "main" THEN Chain
              ELSE IF r.pipe = "query" THEN QuerySub ELSE PrefetchSub
@@ -82,23 +104,33 @@ Init == /\ acl \in AclSets /\ views \in ViewLists /\ Admit(acl, views)
 Idle == req.kind = "none"
 Done == req.kind # "none" /\ (~live \/ pos > Len(PipeOf(req)))
 
-(* Server.ServeRaw / ServeMsg: a client request enters the full chain *)
-Begin(s, b, a) ==
-  /\ Idle /\ s \in Srcs /\ b \in Borns /\ a \in Answers
-  /\ req' = [kind |-> "client", src |-> s, born |-> b, ans |-> a, pipe |-> "main"]
-  /\ pos' = 1 /\ live' = TRUE /\ written' = "none" /\ viewSel' = 0 /\ touched' = {}
+(* Server.ServeRaw / ServeMsg: a client request enters the full chain (with the repair: a peer with
+   source port 0 is dropped by the listener, the chain never runs) *)
+Begin(s, b, a, t, pt) ==
+  /\ Idle /\ s \in Srcs /\ b \in Borns /\ a \in Answers /\ t \in Transports /\ pt \in Ports
+  /\ req' = [kind |-> "client", src |-> s, born |-> b, ans |-> a, pipe |-> "main", tr |-> t, port |-> pt]
+  /\ pos' = 1 /\ live' = ~(IngressDropsPortZero /\ pt = "zero")
+  /\ written' = "none" /\ viewSel' = 0 /\ touched' = {}
   /\ UNCHANGED <<acl, views>>
 
 (* Queryer.Query from inside the resolver / cache: BufferWriter, Internal() = TRUE *)
 InternalSubquery(p, a) ==
   /\ Idle /\ p \in {"query", "prefetch"} /\ a \in Answers
-  /\ req' = [kind |-> "internal", src |-> "-", born |-> "msg", ans |-> a, pipe |-> p]
+  /\ req' = [kind |-> "internal", src |-> "-", born |-> "msg", ans |-> a, pipe |-> p, tr |-> "-", port |-> "-"]
   /\ pos' = 1 /\ live' = TRUE /\ written' = "none" /\ viewSel' = 0 /\ touched' = {}
   /\ UNCHANGED <<acl, views>>
 
 Cur == PipeOf(req)[pos]
 Running == req.kind # "none" /\ live /\ pos <= Len(PipeOf(req))
-Internal == req.kind = "internal"
+SubQuery == req.kind = "internal"
+(* responseWriter.Reset: the address type of the transport, then the sentinel test of that branch *)
+AddrKind(t) == IF t \in {"udp", "doq"} THEN "udp" ELSE "tcp"
+SentinelHit ==
+  /\ req.kind = "client" /\ req.src \in SentinelSrcs
+  /\ \/ req.port = "zero" /\ ~IngressDropsPortZero     \* (dropped by the listener: no writer ever sees it)
+     \/ StreamIgnoresPort /\ AddrKind(req.tr) = "tcp"
+(* what ch.Writer.Internal() reports to accesslist / views (and ratelimit, reflex, cache, dns64, accesslog) *)
+Internal == SubQuery \/ SentinelHit
 
 NextH  == /\ pos' = pos + 1 /\ UNCHANGED <<live, written, viewSel>>
 Cancel == /\ pos' = pos + 1 /\ live' = FALSE /\ UNCHANGED <<written, viewSel>>
@@ -144,7 +176,7 @@ Finish ==
   /\ UNCHANGED <<acl, views>>
 
 Next ==
-  \/ \E s \in Srcs, b \in Borns, a \in Answers : Begin(s, b, a)
+  \/ \E s \in Srcs, b \in Borns, a \in Answers, t \in Transports, pt \in Ports : Begin(s, b, a, t, pt)
   \/ \E p \in {"query", "prefetch"}, a \in Answers : InternalSubquery(p, a)
   \/ ServeAccessList \/ SelectView \/ ServeCache \/ ServeTail
   \/ \E i \in 1..Len(Chain) : Pass(Chain[i])
@@ -171,8 +203,12 @@ DeniedTouchesNothing ==
      /\ touched \cap After("accesslist") = {}
      /\ touched \cap Answering = {}
 
+(* "applies to clients only": what came in through a listener is a client, never a resolver-internal
+   sub-query, whatever address and port it claims *)
+ClientNeverInternal == Client => ~Internal
+
 (* and the gate does not over-deny: an allowed client is answered by someone *)
-AllowedIsServed == (Client /\ Done /\ Allowed(acl, req.src)) => written # "none"
+AllowedIsServed == (Client /\ Done /\ Allowed(acl, req.src) /\ ~(IngressDropsPortZero /\ req.port = "zero")) => written # "none"
 
 (* per-client views: same containment rule, first matching view in declaration order;
    a matching view without a record lets the query fall through, it does not hand the
@@ -183,7 +219,7 @@ FirstMatchingView ==       \* stated without the FirstMatch operator the action 
   IN
   /\ written = "views" =>
         /\ Client /\ viewSel \in 1..Len(views) /\ Firstly(viewSel) /\ views[viewSel].has
-  /\ (Client /\ Done /\ Allowed(acl, req.src)) =>
+  /\ (Client /\ Done /\ Allowed(acl, req.src) /\ ~(IngressDropsPortZero /\ req.port = "zero")) =>
         /\ \A i \in 1..Len(views) :
               Firstly(i) => IF views[i].has THEN written = "views" /\ viewSel = i
                             ELSE written \in {"cache", TailH}
@@ -195,7 +231,7 @@ InternalSkipsClientPolicy ==
   /\ \A i \in 1..Len(QuerySub)    : QuerySub[i] \notin ClientOnlyH
   /\ \A i \in 1..Len(PrefetchSub) : PrefetchSub[i] \notin ClientOnlyH \cup {"cache"}
   /\ PolicyH \cap {Chain[i] : i \in 1..Len(Chain)} \subseteq ClientOnlyH
-  /\ Internal => /\ touched \cap PolicyH = {}
+  /\ SubQuery => /\ touched \cap PolicyH = {}
                  /\ touched \cap ClientOnlyH = {}
                  /\ written \in {"none", "cache", TailH}
                  /\ (Done => written = IF req.ans = "cache" /\ req.pipe = "query" THEN "cache" ELSE TailH)
@@ -210,6 +246,6 @@ UnparsableEntryIgnored ==
 
 (* what the replay compares the real chain with, at the end of a request *)
 Outcome == [acl |-> acl, views |-> views, req |-> req, written |-> written,
-            viewSel |-> viewSel, touched |-> touched,
+            viewSel |-> viewSel, touched |-> touched, internal |-> Internal,
             allowed |-> (IF Client THEN Allowed(acl, req.src) ELSE TRUE)]
 =============================================================================
